@@ -1279,7 +1279,7 @@ Section Screens.
     Proof.
       intros Hclose. induction c as [c IHc] using scmd_ind'. intros Hw self count.
       apply spec_intro. intros Ps pf cc u HI.
-      destruct c as [sc a|sc a|sc a|sc a| | | | | | | | | | | |k t e]; cbn [do_scmd].
+      destruct c as [sc a|sc a|sc a|sc a| | | | | | | | |o|o| | | | |k t e]; cbn [do_scmd].
       - (* push *)
         ic_open HI pm rdy HG. wstep. apply wpc_ev_op; qstep.
         change (expect_of O_PUSH sc a _) with [XAppend sc a (Some false)].
@@ -1336,6 +1336,9 @@ Section Screens.
           apply HG'; [same_rest_solve | reflexivity | reflexivity].
       - ic_open HI pm rdy HG. repeat wstep. ic_view HG.
       - wcall Hclose Ps pf HI1 x; [exact HI | exact HI1 | exact HI1].
+      - ic_open HI pm rdy HG. repeat wstep. ic_view HG.
+      - ic_open HI pm rdy HG. repeat wstep. ic_view HG.
+      - ic_open HI pm rdy HG. repeat wstep. ic_view HG.
       - ic_open HI pm rdy HG. repeat wstep. ic_view HG.
       - ic_open HI pm rdy HG. repeat wstep. ic_view HG.
       - ic_open HI pm rdy HG. repeat wstep. ic_view HG.
